@@ -145,7 +145,8 @@ var (
 		"comment": {"//", "// c", "//x/*y*/", "/**/", "/* c */", "/* a\n b */", "/* x **/", "/***/", "/*/*/", "/* * / */", "/*\t*/", "//\t\"q"},
 		"sep":     {" ", "\t", "\n", "\r\n", "  ", "\n\n", " \t "},
 		"near": {`"`, `"abc`, `"a b"`, `""`, `/`, `/abc`, `//`, `/*`, `/* x`, `/* x *`, `$`, `$x`, `$1`, `@`, `@lef`, `@lefty`, `@rightx`, `@non`, `#`, `%`, `&`, `'`, `~`, "`", `!`, `*`, `+`, `,`, `-`, `.`, `:`, `?`, `\`, `^`, `_`,
-			"é", "€", "😀", "\x7f", "\x01", "\f", "\v", "\uFEFF", "\u00A0", "\u2028", "\u200B", `"é"`, `/é/`, "// é", "/* é */", "A", "A1", "1", "9a", "_a"},
+			"é", "€", "😀", "\x7f", "\x01", "\f", "\v", "\uFEFF", "\u00A0", "\u2028", "\u200B", `"é"`, `/é/`, "// é", "/* é */",
+			"\uFFFD", "\uFFFC", "\uFFFE", "\uFFFF", "\U0010FFFF", "\u0080", "\u07FF", "\u0800", "\uD7FF", "\uE000", "\U00010000", "\"\uFFFD\"", "/\uFFFD/", "// \uFFFD", "/* \uFFFD */", "a\uFFFD", "\"x\uFFFDy\"", "A", "A1", "1", "9a", "_a"},
 	}
 	genKinds = []string{"punct", "kw", "IDENT", "TOKEN", "PREDEF", "STRING", "REGEX", "comment"}
 )
